@@ -8,6 +8,7 @@ import (
 	"github.com/Oudwins/zog/zhttp"
 
 	"encoding/json"
+	"errors"
 	"fmt"
 	"net/http"
 	"reflect"
@@ -486,5 +487,90 @@ func rerunProbe(sum *Summary, seed uint64) {
 			}
 			sum.Hist["rerun_shapes_stable"]++
 		}()
+	}
+}
+
+// prePtrProbe (C12, C06): Preprocess in Validate mode on a POINTER-typed field — the callback gets a **T, its result
+// is stored behind the field's pointer (allocating it when nil) and the wrapped Ptr schema validates that. A fixed
+// scenario for the one branch of PreprocessSchema.validate that the case language does not reach.
+func prePtrProbe(sum *Summary) {
+	type rec struct {
+		A *int
+		B *string
+	}
+	var sawA, sawB int
+	schema := z.Struct(z.Schema{
+		"a": z.Preprocess(func(v **int, ctx z.Ctx) (int, error) {
+			sawA++
+			if *v == nil {
+				return 7, nil
+			}
+			return **v + 1, nil
+		}, z.Ptr(z.Int().GT(5))),
+		"b": z.Preprocess(func(v **string, ctx z.Ctx) (string, error) {
+			sawB++
+			if *v == nil {
+				return "", errors.New("nothing to trim")
+			}
+			return strings.TrimSpace(**v), nil
+		}, z.Ptr(z.String().Min(2))),
+	})
+	three, padded := 3, "  x "
+	for _, tc := range []struct {
+		name string
+		in   rec
+		want string
+	}{
+		{"nil pointers", rec{}, `a=7 b=<nil> issues=b:[:nothing to trim]`},
+		{"set pointers", rec{A: &three, B: &padded}, `a=4 b=x issues=a:[gt:] b:[min:]`},
+	} {
+		func() {
+			defer func() {
+				if r := recover(); r != nil {
+					for _, pid := range []string{"C12", "C06"} {
+						sum.addViolation(pid, Mismatch{Case: "prePtrProbe: " + tc.name, Impl: fmt.Sprint("panic: ", r), What: "Preprocess in Validate on a pointer-typed field panicked"})
+					}
+				}
+			}()
+			d := tc.in
+			if d.A != nil {
+				a, b := *d.A, *d.B
+				d.A, d.B = &a, &b
+			}
+			sawA, sawB = 0, 0
+			errs := schema.Validate(&d)
+			var keys []string
+			for k := range errs {
+				if k != "$first" {
+					keys = append(keys, k)
+				}
+			}
+			sort.Strings(keys)
+			var parts []string
+			for _, k := range keys {
+				var is []string
+				for _, e := range errs[k] {
+					m := ""
+					if e.Code == "custom" || e.Code == "" {
+						m = e.Message
+					}
+					is = append(is, e.Code+":"+m)
+				}
+				parts = append(parts, k+":["+strings.Join(is, ",")+"]")
+			}
+			show := func(p any) string {
+				rv := reflect.ValueOf(p)
+				if rv.IsNil() {
+					return "<nil>"
+				}
+				return fmt.Sprint(rv.Elem().Interface())
+			}
+			got := fmt.Sprintf("a=%s b=%s issues=%s", show(d.A), show(d.B), strings.Join(parts, " "))
+			if got != tc.want || sawA != 1 || sawB != 1 {
+				sum.addViolation("C12", Mismatch{Case: "prePtrProbe: " + tc.name, Impl: fmt.Sprintf("%s (callbacks ran %d / %d times)", got, sawA, sawB), Model: tc.want + " (each callback once)",
+					What: "Preprocess in Validate on a pointer-typed field: the callback's result is what the wrapped schema validates and what the field holds afterwards"})
+			}
+		}()
+		sum.Evaluations++
 	}
 }
